@@ -371,6 +371,21 @@ def r04_6(ctx):
     rec = [c for c in ast.walk(mr.node) if isinstance(c, ast.Call) and src(c.func) == 'self._mark_recursive']
     ok = bool(rec) and src(rec[0].args[0]).replace(' ', '') == 'l-self.disparity' and guards.has_literal(guards.path_conditions(rec[0]), 'neighbors', True)
     ctx.decide('R04.6', mr.qual, src(rec[0]) if rec else 'recursion', ok, rec[0] if rec else mr.node, 'recurse to level l - disparity only when new neighbours were marked')
+    # semantic: the recursion continues on the level whose marks were just extended (marked[L] = ... ; recurse(L))
+    ext = [s for s in own_nodes(mr.node) if isinstance(s, (ast.Assign, ast.AugAssign))
+           and isinstance((s.targets[0] if isinstance(s, ast.Assign) else s.target), ast.Subscript)
+           and src((s.targets[0] if isinstance(s, ast.Assign) else s.target).value) == 'marked']
+    if rec and ext:
+        from sa import affine
+        tgt = ext[0].targets[0] if isinstance(ext[0], ast.Assign) else ext[0].target
+        try:
+            L_ext = affine.from_ast(tgt.slice)
+            L_rec = affine.from_ast(rec[0].args[0])
+            ctx.decide('R04.6', mr.qual, 'marks extended on level %r, recursion on level %r' % (L_ext, L_rec), L_ext == L_rec, rec[0],
+                       'the closure of the marking must propagate from the level that just received new marks; recursing elsewhere cuts the '
+                       'propagation off after one step (level disparity is then violated for disparity >= 2)', definite=True)
+        except affine.NonAffine:
+            ctx.undecided('R04.6', mr.qual, 'recursion level', rec[0], 'level expressions not affine')
     ctx.note_precedence = None
     ss = ctx.prog.func(H + '.HSpace.spans_same_space_as')
     for iff in [s for s in ast.walk(ss.node) if isinstance(s, ast.If)]:
